@@ -1,6 +1,7 @@
 CHECK = {
     "suites": [suite("conversation", "c16", 3000, 30000, stdin=True, timeout={"quick": 600, "thorough": 2400})],
-    "lean_sources": ["ClusterVerif/Model/C16.lean", "ClusterVerif/Spec/C16.lean", "ClusterVerif/Lemmas/C16.lean"],
+    "gen": [{"pkg": "extract_c16", "out": "lean/ClusterVerif/Gen/C16.lean"}],
+    "lean_sources": ["ClusterVerif/Model/C16Source.lean", "ClusterVerif/Gen/C16.lean", "ClusterVerif/Model/C16.lean", "ClusterVerif/Spec/C16.lean", "ClusterVerif/Lemmas/C16.lean"],
     "rule": "cases = (op pin|unpin|PinLsCid, MaxDepth in {-2,-1,0,1,2,7}, Mode, update source none|other|same, 0-13 origins, UnpinDisable, "
             "prior daemon state u|d|r|i of every CID, one of 21 daemon behaviours per sequential request + one for swarm/connect, wire variant) "
             "from one splitmix64 stream per case index; every well-formed case is non-trivial; distinct by case line",
@@ -20,5 +21,5 @@ META = {
             "final pin table with the model, and by evaluating the Lean property checker on the real outputs.",
     "note": "Trusted: Lean kernel, the hand-written model/spec, the fake daemon and its notion of an honest answer, Go net/http. Timing cases use a 60 ms PinTimeout "
             "and are repeated until two runs agree.",
-    "technique": "Lean 4 theorems over an executable conversation model + differential correspondence with the real ipfshttp.Connector",
+    "technique": "regenerated source text of the anchored functions checked against the transcribed snapshot (rfl) + Lean 4 theorems over an executable conversation model + differential correspondence with the real ipfshttp.Connector",
 }
